@@ -351,9 +351,44 @@ pub fn assemble(text: &str, stack: bool) -> AsmResult {
         source.reclaim();
         res
     });
+    trim_streams();
     match r {
         Ok(r) => r,
         Err(msg) => AsmResult::Panic { msg, loc: "<thread>".into(), phase: "thread" },
+    }
+}
+
+/// Assemble `texts` one after the other on ONE fresh thread, calling the documented state reset
+/// (`lace::reset_state`) between consecutive assemblies, as `lace watch` does.
+pub fn assemble_sequence(texts: &[String], stack: bool) -> Vec<AsmResult> {
+    let texts: Vec<String> = texts.to_vec();
+    let n = texts.len();
+    let r = fresh_thread(move || {
+        init_features(stack);
+        let mut out = Vec::new();
+        for text in texts {
+            let mut source = StaticSource::new(text);
+            let (res, air) = assemble_here(source.src());
+            drop(air);
+            out.push(res);
+            lace::reset_state();
+            source.reclaim();
+        }
+        out
+    });
+    trim_streams();
+    match r {
+        Ok(v) => v,
+        Err(msg) => vec![AsmResult::Panic { msg, loc: "<thread>".into(), phase: "thread" }; n],
+    }
+}
+
+/// Keep the redirected stdout/stderr files from growing when cases print without using them.
+pub fn trim_streams() {
+    let _ = std::io::stdout().flush();
+    if REDIRECT.lock().unwrap().is_some() {
+        reset_fd(1);
+        reset_fd(2);
     }
 }
 
@@ -527,4 +562,45 @@ pub fn strip_sgr(bytes: &[u8]) -> Vec<u8> {
         i += 1;
     }
     out
+}
+
+// ---------------------------------------------------------------------------------------------
+// A machine that is reused for many single-instruction cases on one thread (C02)
+
+pub struct Machine {
+    pub env: RunEnvironment,
+}
+
+pub struct Exec {
+    pub stop: Stop,
+    pub stdout: Vec<u8>,
+    pub input_left: usize,
+}
+
+impl Machine {
+    /// Must be called on a thread whose features are initialised.
+    pub fn new() -> Self {
+        lace::verif::arm_exit(true);
+        lace::verif::set_fuel(None);
+        let mut env = RunEnvironment::from_raw(&[0x3000]).expect("from_raw");
+        env.verif_mem_mut()[0x3000] = 0;
+        Machine { env }
+    }
+
+    /// Execute one instruction word on the current state. With `io = Some(input)` the standard
+    /// streams are prepared and collected (needed for TRAP words only).
+    pub fn exec(&mut self, word: u16, io: Option<&[u8]>) -> Exec {
+        if let Some(input) = io {
+            io_begin(input);
+        }
+        let env = &mut self.env;
+        let (_, stop) = guarded(|| env.verif_execute(word));
+        let (stdout, input_left) = if io.is_some() {
+            let (out, _err, left) = io_end();
+            (out, left)
+        } else {
+            (Vec::new(), 0)
+        };
+        Exec { stop, stdout, input_left }
+    }
 }
